@@ -2,8 +2,8 @@
 # Runs the Kani lemma L4 harnesses against a scratch copy of /repo's current working tree.
 # exit 0: every harness VERIFICATION:- SUCCESSFUL; exit 1: some harness FAILED (counterexample); exit 2: inconclusive
 set -u
-HARNESSES=${KANI_HARNESSES:-"l4_meta_len_1 l4_meta_len_8 l4_meta_len_32 l4_meta_len_40"}
-TMO=${KANI_TIMEOUT:-900}
+HARNESSES=${KANI_HARNESSES:-"l4_meta_len_1 l4_meta_len_8"}
+TMO=${KANI_TIMEOUT:-600}
 S=$(mktemp -d /tmp/walrus-verif-kani.XXXXXX)
 trap "cp \"\$S\"/*.log /tmp/ 2>/dev/null; rm -rf \"\$S\"" EXIT
 mkdir -p "$S/src"
@@ -28,6 +28,10 @@ for h in $HARNESSES; do
   el=$(( $(date +%s) - start ))
   if grep -q "VERIFICATION:- SUCCESSFUL" "$S/$h.log"; then
     echo "KANI $h SUCCESSFUL ${el}s $(grep -c 'Status: SATISFIED' "$S/$h.log") cover-satisfied"
+  elif grep -q "VERIFICATION:- FAILED" "$S/$h.log" && ! grep -A2 "Status: FAILURE" "$S/$h.log" | grep "Description:" | grep -qv "unwinding assertion"; then
+    # only unwinding assertions failed: the bound was too small, nothing is decided
+    echo "KANI $h INCONCLUSIVE (unwinding bound too small, ${el}s)"
+    [ $rc -eq 0 ] && rc=2
   elif grep -q "VERIFICATION:- FAILED" "$S/$h.log"; then
     echo "KANI $h FAILED ${el}s"
     grep -E "^Failed Checks|Status: FAILURE" -A2 "$S/$h.log" | head -20
